@@ -149,6 +149,11 @@ def showUts (v2 : Bool) : Option UTS → String
     if v2 then s!"{u.a}:" ++ showList (u.infos.map (fun (g, m) => s!"{g}/{m}"))
     else s!"{u.a}:{u.b}:{u.c}:{u.d}"
 
+def errMsg : Err → String
+  | .user m => m
+  | .panic m => "panic: " ++ m
+  | .vm m => m
+
 def showRes : Res Nat → String
   | .ok n => toString n
   | .error e => e.cls
@@ -250,7 +255,7 @@ def handle (d : DState) (line : String) : DState × String :=
       | some s =>
         match step sha s e c with
         | .ok (s', o) => ((if probe then d else { d with st := some s' }), "R ok " ++ showOut o)
-        | .error err => (d, s!"R {err.cls} " ++ showOut {})
+        | .error err => (d, s!"R {err.cls} " ++ showOut {} ++ " msg=" ++ errMsg err)
   | "dump" :: rest =>
     let p : P (Nat × Nat × List Nat) := do
       let round ← nat; let bound ← nat
